@@ -156,17 +156,17 @@ class Runner(object):
                 self.pred[key] = set() if out == '-' else set(out.split(','))
         return self.pred[key]
 
-    def inject(self, d, sc, k, fault, layer='api'):
+    def inject(self, d, sc, k, fault, layer='api', timeout=W.USE_SCENARIO):
         w = self.world(d, layer)
         w.sim.arm(k, fault)
         W.setup(w, sc)
-        tag, val, e = W.outcome(w, sc)
+        tag, val, e = W.outcome(w, sc, timeout)
         return w, tag, val, e
 
-    def one(self, d, sc, k, cmd, fault, baseline, layer='api'):
+    def one(self, d, sc, k, cmd, fault, baseline, layer='api', timeout=W.USE_SCENARIO):
         ck = self.ck
         self.current_sc = sc
-        w, tag, val, e = self.inject(d, sc, k, fault, layer)
+        w, tag, val, e = self.inject(d, sc, k, fault, layer, timeout)
         if not w.sim.fired and fault[0] != 'none':
             ck.count('fault-not-reached')
             return
@@ -174,6 +174,32 @@ class Runner(object):
         obs = 'ok' if tag == 'ok' else class_name(val)
         case = {'driver': d, 'layer': layer, 'scenario': sc.name, 'index': k, 'command': cmd if isinstance(cmd, str) else '0x%02X' % cmd,
                 'fault': jsonable(fault), 'observed': obs if tag == 'ok' else '%s (%r)' % (obs, e)}
+        if timeout is not W.USE_SCENARIO:
+            # ---- the pass over the timeout argument family
+            case['timeout'] = timeout
+            ck.case((d, layer, sc.name, k, fault, repr(timeout)), True)
+            ck.count('timeout=%r/%s' % (timeout, obs))
+            if tag != 'ok':
+                if obs == 'WouldBlockForever' and timeout is None:
+                    ck.count('waits-without-limit')            # what timeout=None asks for
+                    return
+                if obs == 'TypeError' and timeout is None and direction == 'i':
+                    ck.count('argument-rejected')              # send_cmd_recv_rsp documents a number of seconds
+                    return
+                if obs == 'AssertionError' and timeout is not None and timeout < 0:
+                    ck.count('argument-rejected')              # negative timeout, rejected by an assert
+                    return
+            if not documented(tag, val):
+                ck.violation('%s:%s:%s:timeout=%r' % (d, fault_key(fault), obs, timeout),
+                             'ContactlessFrontend.exchange(.., timeout=%r) on %s raised %s (%s, host command %s #%d, fault %s)' % (
+                                 timeout, d, obs, sc.name, case['command'], k, fault_key(fault)), case)
+            if tag != 'ok' and obs in EXPLICIT:
+                pred = self.predicted(d, direction)
+                if pred is not None:
+                    self.n_membership += 1
+                    if obs not in pred:
+                        ck.correspondence_mismatch('skeleton-membership', dict(case, predicted=sorted(pred)))
+            return
         ck.case((d, layer, sc.name, k, fault), fault[0] != 'none',
                 case if fault[0] in ('status', 'status32', 'errframe', 'short') and ck.cov['evaluations'] % 977 == 0 else None)
         ck.count('%s/%s' % (fault_key(fault), obs))
@@ -294,6 +320,27 @@ class Runner(object):
                 ck.correspondence_mismatch('drvmap', dict(case, model=got, query=line))
         ck.cov['traces_validated_against_impl'] = len(self.model_q) - nmis
         ck.cov['skeleton_membership_checks'] = self.n_membership
+
+
+TIMEOUTS = [None, 0, 0.0, 1e-7, 0.001, 0.5, 1.0, 10, -1]
+
+
+def timeout_pass_faults(d, cmd, has_status):
+    if d == 'udp':
+        if cmd == 'sendto':
+            return [('gone',), ('shortsend',), ('ioerror', errno.ECONNREFUSED, 'write')]
+        return [('timeout', 'rsp'), ('gone',), ('rfoff',), ('ioerror', errno.ECONNREFUSED, 'rsp'), ('garbled', b'106A zz'),
+                ('garbled', b'999Z 00')]
+    fs = [('timeout', 'ack'), ('timeout', 'rsp'), ('ioerror', errno.EIO, 'rsp'), ('ioerror', errno.ETIMEDOUT, 'rsp'),
+          ('ioerror', errno.ETIMEDOUT, 'write'), ('errframe',), ('gone',), ('payload', 0), ('short', 3)]
+    if has_status:
+        if d == 'rcs380' and cmd in (0x04, 0x48):
+            fs += [('status32', 0x80), ('status32', 0x400), ('status32', 0x04)]
+        else:
+            fs += [('status', 1), ('status', 0x29), ('status', 0xFF)]
+    if cmd == 0x06 and d in W.PN53X_FAMILY:
+        fs += [('regval', 0, 0), ('regval', 0, 1), ('regval', 0, 0x84)]
+    return fs
 
 
 def regval_faults(ck, d, cmd, payload_len, thorough, full):
@@ -444,6 +491,11 @@ CORPUS = [
     ('udp', 'tt2-read', 1, ('garbled', b'106A zz')), ('udp', 'dep-target', 1, ('garbled', b'\xff\xfe 00')),
     ('udp', 'tt4a-apdu', 1, ('garbled', b'106A 0')),
 ]
+# (driver, scenario, index, fault, timeout)
+TIMEOUT_CORPUS = [('pn532', 'listen-tt3', 0, ('none',), None), ('pn531', 'listen-tt3-first', 0, ('none',), None),
+                  ('pn533', 'listen-tt3', 1, ('timeout', 'rsp'), None), ('pn532', 'listen-tt3', 3, ('ioerror', errno.ETIMEDOUT, 'rsp'), None),
+                  ('pn532', 'dep-target', 0, ('none',), None), ('rcs956', 'listen-tt4', 1, ('timeout', 'rsp'), None),
+                  ('pn532', 'tt2-read', 0, ('none',), 0), ('pn533', 'tt3-check', 0, ('none',), 1e-7), ('rcs380', 'dep-target', 0, ('none',), None)]
 PHYS_CORPUS = [('pn532', 'tt2-read', 0, ('short', 1)), ('pn532', 'tt2-read', 3, ('short', 3)), ('arygon-a', 'tt2-read', 3, ('short', 2)),
                ('arygon-b', 'listen-tt4', 1, ('garbled', bytes.fromhex('0000ffffff01')))]
 
@@ -491,7 +543,10 @@ def main():
                       'a well-formed response frame with a payload of every length shorter than the normal one is injected at '
                       'every host command; ReadRegister answers also with every value 0..255 per register (quick: sampled for '
                       'repeated code paths and for FIFO positions beyond the third) and with surplus values',
-                      'exchange timeouts are numbers (as every caller inside nfcpy passes them), not None',
+                      'the timeout argument is drawn from {None, 0, 0.0, 1e-7, 0.001, 0.5, 1.0, 10, -1} on every exchange path; '
+                      'send_cmd_recv_rsp documents a number of seconds, so a TypeError for None on the initiator side counts as '
+                      'a rejected argument, as does the AssertionError of rcs380 for a negative value; with None an exchange '
+                      'that the simulated peer never answers is cut by the harness (waits without limit)',
                       'RC-S380: a response frame that cannot be used (wrong type / code / truncated) makes '
                       'send_cmd_recv_rsp return None; the monitor accepts None as a documented return value'] + \
         ['skeleton: ' + a for a in skeleton_assumptions()]
@@ -506,7 +561,8 @@ def main():
         if 'driver' in c:
             sc = [s for s in W.SCENARIOS if s.name == c['scenario']][0]
             cmd = c['command'] if not c['command'].startswith('0x') else int(c['command'], 16)
-            run.one(c['driver'], sc, c['index'], cmd, unjson(c['fault']), None, c.get('layer', 'api'))
+            run.one(c['driver'], sc, c['index'], cmd, unjson(c['fault']), None, c.get('layer', 'api'),
+                    c['timeout'] if 'timeout' in c else W.USE_SCENARIO)
             run.model_q = []
         ck.finish(level='proof', rule='replay of one recorded injection')
 
@@ -520,6 +576,9 @@ def main():
         tr = [t for t in w.sim.trace if t[0] == k]
         if tr:
             run.one(d, sc, k, tr[0][1], fault, 'ok')
+    for d, scn, k, fault, t in TIMEOUT_CORPUS:
+        sc = [s for s in W.SCENARIOS if s.name == scn][0]
+        run.one(d, sc, k, 0, fault, None, 'api', t)
     for d, scn, k, fault in PHYS_CORPUS:
         sc = [s for s in W.SCENARIOS if s.name == scn][0]
         run.one(d, sc, k, 0, fault, 'ok', 'phys')
@@ -598,6 +657,24 @@ def main():
             for (k, cmd, has_status) in trace:
                 for f in phys_fault_set(ck, d, cmd, has_status, max(flens.get(k, 0), 12), not quick, plens.get(k, 0)):
                     run.one(d, sc, k, cmd, f, baseline, 'phys')
+    # ---- the timeout argument: every exchange path of every driver with each value of the family, fault free and
+    #      crossed with a small set of faults at the host commands of the exchange
+    for d in W.DRIVERS:
+        for sc in W.scenarios_for(d):
+            for t in TIMEOUTS:
+                w = run.world(d)
+                w.sim.arm()
+                W.setup(w, sc)
+                W.outcome(w, sc, t)
+                trace = list(w.sim.trace)
+                run.one(d, sc, 0, trace[0][1] if trace else 0, ('none',), None, 'api', t)
+                if len(trace) > 6 and quick:
+                    trace = trace[:4] + trace[-2:]
+                elif len(trace) > 24:
+                    trace = trace[:16] + trace[-8:]
+                for (k, cmd, has_status) in trace:
+                    for f in timeout_pass_faults(d, cmd, has_status):
+                        run.one(d, sc, k, cmd, f, None, 'api', t)
     run.compare_models()
     ck.finish(level='proof',
               rule='driver x target kind (Type 1/2/3/4, DEP initiator/target, listen modes) x host command index of the '
